@@ -15,7 +15,8 @@ VARIABLES l, bad
 vars == <<l, bad>>
 
 WellFormed(r) ==
-  IF r.m = "s2" THEN /\ Len(r.H) = r.d /\ Len(r.types) = Len(r.fr[1]) /\ r.nd >= 2 /\ r.rn > 0 /\ r.rd > 0
+  IF r.m = "s2" /\ "lat" \in DOMAIN r THEN S2IsLattice(r) /\ r.nd >= 2 /\ r.rn > 0 /\ r.rd > 0 /\ Len(r.sig) = 1
+  ELSE IF r.m = "s2" THEN /\ Len(r.H) = r.d /\ Len(r.types) = Len(r.fr[1]) /\ r.nd >= 2 /\ r.rn > 0 /\ r.rd > 0
                      /\ \A i \in 1..Len(r.types) : r.types[i] \in 1..Len(r.sig)
                      /\ LoFramesWellFormed(r, Len(r.fr))       \* optional per-frame cells Hs / types tys
                      \* optional fr0: the wrapped positions of which fr is an unwrapped image (same system)
@@ -41,6 +42,13 @@ ExpS2(r) ==
     g       |-> IF r.savegr
                 THEN [f \in 1..T |-> [i \in 1..n |-> [k \in 1..r.nd |-> S2GT(P[f], i, k)]]]
                 ELSE << >> ]
+
+\* a full lattice (S2IsLattice): all particles are equivalent, the row of particle 1 stands for every particle
+ExpS2Lat(r) ==
+  LET P == S2PrepOne([d |-> r.d, H |-> r.H, ppp |-> r.ppp, S |-> r.S, pos |-> r.fr[1], types |-> r.types,
+                      sig |-> r.sig, rn |-> r.rn, rd |-> r.rd, nd |-> r.nd]) IN
+  [ lat |-> TRUE, contrib |-> << <<S2Contrib(P, 1)>> >>, tie |-> << <<S2Tie(P, 1)>> >>, cls |-> << <<S2Class(P, 1)>> >>,
+    s2 |-> << <<S2Term(P, 1)>> >>, g |-> << >> ]
 
 TetraRows(H, ppp, pos) ==
   LET rt == TeTable(H, ppp, pos)  tt == TeTieTable(H, ppp, pos)  dg == IsDiagonal(H) IN
@@ -72,7 +80,7 @@ ExpGyr(r) ==
          asph    |-> "na",
          kappa2  |-> IF d = 3 THEN GyKappa2T(x) ELSE "na" ]
 
-Expected(r) == IF r.m = "s2" THEN ExpS2(r) ELSE IF r.m = "tetra" THEN ExpTetra(r)
+Expected(r) == IF r.m = "s2" /\ "lat" \in DOMAIN r THEN ExpS2Lat(r) ELSE IF r.m = "s2" THEN ExpS2(r) ELSE IF r.m = "tetra" THEN ExpTetra(r)
                ELSE IF r.m = "nematic" THEN ExpNem(r) ELSE ExpGyr(r)
 
 Why(r) == IF ~WellFormed(r) THEN "WellFormed" ELSE ""
